@@ -13,7 +13,7 @@ def gen(rep, family, consts, nparts=8, timeout=900, lemmas=('Lemmas', 'L_Progres
     def one(part):
         cfg = os.path.join(w, 'g%d.cfg' % part)
         outp = os.path.join(w, 'g%d.ndjson' % part)
-        c = dict(MaxUnits=2, MaxSig=1, MaxItems=1, WsVariants='{0}', KindIdx='{1,2,3,4,5,6,7,8,9,10,11,12}', ItemIdx='{1,2,3,4,5,6,7,8,9,10,11,12,13,14,15,16,17,18,19,20,21}', NParts=nparts, Part=part)
+        c = dict(MaxUnits=2, MaxSig=1, MaxItems=1, WsVariants='{0}', KindIdx='{1,2,3,4,5,6,7,8,9,10,11,12}', ItemIdx='{1,2,3,4,5,6,7,8,9,10,11,12,13,14,15,16,17,18,19,20,21,22}', NParts=nparts, Part=part)
         c.update(consts)
         with open(cfg, 'w') as f:
             f.write('SPECIFICATION Spec%s\nCONSTANTS\n' % family)
